@@ -86,7 +86,8 @@ LEVEL_TEXT = {
             "property still equals its expression after a move construction or a move assignment over an unread destination. PARTIAL: values in mixed worlds and the notification order seen by observers "
             "are tied by correspondence and check_c02 on every reached world (tests).", '6/C11'),
     'C13': ("Machine-checked on the executable model: a clean node runs no user function, one evaluation runs at most one function per operator node, get() runs "
-            "none, evaluator-driven notifications only mark. The strict statement is refuted for immediate mode with several notification paths "
+            "none, evaluator-driven notifications only mark; and exactly: from a clean tree, after notifications for any set of input leaves, one successful evaluation runs the "
+            "functions of precisely the operator nodes above those leaves, once each, and leaves the tree clean. The strict statement is refuted for immediate mode with several notification paths "
             "(C13_multipath_refuted, known finding KF-C13-multipath). Per-call function invocation sequences are compared with the real library.", '6/C13'),
     'C04': ("Machine-checked on the model: a disconnected id becomes stale and stays stale after every further history (hence inactive through every handle "
             "copy, for ever, and - by C01 - never invoked again), repeating the disconnect is a no-op, exactly that table entry and its queued deferred "
